@@ -6,7 +6,7 @@ Line:  CALL \t kind[:style] \t provider \t scope \t item...
         P|name|T|spec;spec;..|value  tuple hint   (TO: Optional[tuple[...]])
         R|S/T/-|specs|value          return hint (or '-') and what the body returns ('!' = raises)
         AL                           identical annotation specs share one annotation object (a type alias)
-  value N | X | T,lib:dtype,d1.d2 | U:v;v;v (a tuple)
+  value N | X | T,lib:dtype,d1.d2 | U:v;v;v (a tuple; L: a list, S: an instance of a tuple subclass)
 """
 from __future__ import annotations
 
@@ -41,10 +41,19 @@ def _patch_events():
     _PATCHED = True
 
 
+SEQ = ("U:", "L:", "S:")
+
+
+class TupleSub(tuple):
+    """a tuple subclass: what a NamedTuple or a torch.return_types value is to `tuple[...]`-hinted code"""
+
+
 def parse_value_u(s: str):
-    if s.startswith("U:"):
+    if s[:2] in SEQ:
         body = s[2:]
-        return tuple(impl.parse_value(v) for v in impl.split_semi(body))
+        vals = [impl.parse_value(v) for v in impl.split_semi(body)]
+        # U: an exact tuple; L: a list; S: an instance of a tuple subclass (as a NamedTuple or torch.return_types value is)
+        return tuple(vals) if s[0] == "U" else (vals if s[0] == "L" else TupleSub(vals))
     return impl.parse_value(s)
 
 
@@ -102,7 +111,7 @@ class Built:
         """source text of the type hint; annotation objects are created here (may raise SyntaxError)"""
         sp = impl.split_semi(specs) if mode in ("T", "TO") else [specs]
         if mode in ("T", "TO"):
-            vals = impl.split_semi(val_s[2:]) if val_s.startswith("U:") else []
+            vals = impl.split_semi(val_s[2:]) if val_s[:2] in SEQ else []
         else:
             vals = [val_s]
         parts = []
